@@ -114,6 +114,14 @@ add("C44", EX, "Every small sorted index x every truthful source division vector
     "bounded exhaustive enumeration against a pandas reference")
 add("C45", EX, "Exhaustive small-scope enumeration of the real division planners: every sorted sequence up to length 8 (thorough 12) with every npartitions/chunksize through sorted_division_locations, every small weighted summary through process_val_weights, and every small unsorted partitioned series through the quantile / set_index path, checked against the statement's invariants.", "5/C45", DF_NOTE,
     "bounded exhaustive enumeration against an invariant oracle")
+add("C37", EX, "Every reduction of the statement is evaluated on the real dask.dataframe code for every partitioning (including empty partitions) of 4-row (5-row) frames of seven column kinds, for both axes, skipna/numeric_only/ddof/min_count options and every split_every tree shape, and compared exactly (floats within 1e-9*n) with pandas on the whole frame.", "5/C37", DF_NOTE,
+    "bounded exhaustive enumeration (all partitionings x option products x split_every) against pandas")
+add("C38", EX, "Groupby aggregations (single, list, dict, named), cumulative operations, transform/shift/ffill/bfill and value_counts for eight key kinds over every partitioning of a 5-row (6-row) frame and every sort x dropna/observed x split_out x shuffle_method x split_every configuration, compared with pandas, order checked only where promised.", "5/C38", DF_NOTE,
+    "bounded exhaustive enumeration (partitionings x key kinds x operations x configuration products) against pandas groupby")
+add("C39", EX, "Every pair of partitionings (empty partitions, known and unknown divisions) of two tiny frames x key scenario x how x join strategy (broadcast / shuffle tasks / disk) for merge/join, merge_asof variants and concat layouts, compared with pandas on the whole frames.", "5/C39", DF_NOTE + " p2p shuffles need distributed and are outside the alphabet.",
+    "bounded exhaustive enumeration against a pandas reference")
+add("C40", EX, "shuffle / sort_values / set_index / drop_duplicates / unique / nunique over every partitioning (including empty partitions) of a 6-row frame with NA, string, categorical and nullable keys x output partition counts x shuffle method (tasks, disk, forced multi-stage): keys co-located, row multiset preserved, results equal pandas.", "5/C40", DF_NOTE,
+    "bounded exhaustive enumeration against a pandas reference")
 
 
 def build():
